@@ -152,6 +152,7 @@ class C18(Check):
             return lf.fix_string()[0] == text
 
     def run_case(self, case):
+        C.prepare_inprocess()
         out = Outcome()
         sql = case["sql"]
         eff = C.effective(case)
